@@ -472,6 +472,9 @@ func c15ConcRound(r *verifkit.Run, round, racers int) {
 	}
 	var ents []seedEnt
 	nEnts := 2 + rnd.IntN(3)
+	if racers > 16 {
+		nEnts = 4 + rnd.IntN(3) // spread a wide race over more partitions (keeps the linearizability search tractable)
+	}
 	for i := 0; i < nEnts; i++ {
 		typ := []int32{format.MetricEvent, format.DashboardEvent, format.MetricsGroupEvent, format.NamespaceEvent}[rnd.IntN(4)]
 		name := fmt.Sprintf("e%d", i)
@@ -496,6 +499,9 @@ func c15ConcRound(r *verifkit.Run, round, racers int) {
 	plans := make([][]int, racers) // pre-drawn choices: the case list is a function of the seed
 	for g := range plans {
 		n := 2 + rnd.IntN(3)
+		if racers > 16 {
+			n = 1 + rnd.IntN(2)
+		}
 		for j := 0; j < n; j++ {
 			plans[g] = append(plans[g], rnd.IntN(1000))
 		}
@@ -757,7 +763,9 @@ func c15ConcRound(r *verifkit.Run, round, racers int) {
 	sort.Strings(names)
 	for _, p := range names {
 		ops := parts[p]
+		t0 := time.Now()
 		res := porcupine.CheckOperationsTimeout(c15Model, ops, 60*time.Second)
+		r.MaxCounter("conc.porcupine_slowest_partition_ms", time.Since(t0).Milliseconds()) // cost figure only, never judged
 		r.Count("conc.porcupine_partitions", 1)
 		r.Count("conc.porcupine_operations", int64(len(ops)))
 		switch res {
@@ -781,8 +789,8 @@ func TestVerifC15Conc(t *testing.T) {
 	r := verifkit.Start(t, "C15", "conc")
 	defer r.Finish()
 	mdkAssumeSQLite(r)
-	r.SetRule("rounds on a fresh database: 2–4 seeded entities, then 8 (quick) / 64 (thorough) goroutines each issue 2–4 requests — plain edits from the version they believe current (first the common seeded version, later what they learned), creates of two shared names, journal reads. One case = one raced (entity, version) group, one journal page, or one porcupine partition. Non-trivial = ≥2 edits from one version / non-empty page / partition with >3 operations; distinct = (attempts, winners) resp. partition size and verdict; history_shapes = distinct call/return interleavings.")
-	rounds := r.N(40, 300)
+	r.SetRule("rounds on a fresh database: 2–4 seeded entities, then 8 (quick) / 64 (thorough) goroutines each issue 2–4 (quick) / 1–2 (thorough, 4–6 seeded entities) requests — plain edits from the version they believe current (first the common seeded version, later what they learned), creates of two shared names, journal reads. One case = one raced (entity, version) group, one journal page, or one porcupine partition. Non-trivial = ≥2 edits from one version / non-empty page / partition with >3 operations; distinct = (attempts, winners) resp. partition size and verdict; history_shapes = distinct call/return interleavings.")
+	rounds := r.N(40, 200)
 	racers := r.N(8, 64)
 	for i := 0; i < rounds; i++ {
 		c15ConcRound(r, i, racers)
